@@ -119,6 +119,10 @@ def _identity_inst(t, callee, new_traits=()):
                 params(ty["inner"], out)
         params(isf, names)
     want = names + [n for n in own if n not in names]
+    if not want:
+        # a callee without any type parameter (`impl From<usize> for Position`): the generic arguments of the trait-level call
+        # (`<Position as From<usize>>::from`) only name the impl that was selected
+        return True
     got = []
     ncl = 0
     nfree = 0
